@@ -173,6 +173,8 @@ type vMFile struct {
 	ents    []os.FileInfo
 	dirPos  int
 	closed  int
+	inAtClose  int // calls in flight when Close ran
+	afterClose int // ReadAt/WriteAt calls that started after Close
 	reads   int
 	writes  int
 	inCall  int // calls currently executing (for C14)
@@ -214,22 +216,38 @@ func (f *vMFile) Stat() (os.FileInfo, error) {
 	return &vFI{name: "f", size: int64(len(f.data)), mode: m, mtime: time.Unix(5, 0)}, nil
 }
 
+// under the engine the code between two visible operations is atomic, so the
+// bookkeeping needs no lock there (natively it does)
+func (f *vMFile) lock() {
+	if !vSymbolic() {
+		f.mu.Lock()
+	}
+}
+func (f *vMFile) unlock() {
+	if !vSymbolic() {
+		f.mu.Unlock()
+	}
+}
+
 func (f *vMFile) enter() {
-	f.mu.Lock()
+	f.lock()
+	if f.closed > 0 {
+		f.afterClose++
+	}
 	f.inCall++
 	if f.inCall > f.maxIn {
 		f.maxIn = f.inCall
 	}
-	f.mu.Unlock()
+	f.unlock()
 	if f.yield {
 		vYield(1)
 	}
 }
 
 func (f *vMFile) leave() {
-	f.mu.Lock()
+	f.lock()
 	f.inCall--
-	f.mu.Unlock()
+	f.unlock()
 }
 
 func (f *vMFile) ReadAt(b []byte, off int64) (int, error) {
@@ -304,7 +322,10 @@ func (f *vMFile) Chown(uid, gid int) error {
 }
 func (f *vMFile) Close() error {
 	vLogCall(vCall{Op: "f.Close", P1: f.name})
+	f.lock()
+	f.inAtClose += f.inCall
 	f.closed++
+	f.unlock()
 	return nil
 }
 
